@@ -9,22 +9,24 @@ Full-strength statements (what the property says):
   violation_rejected  :  Reach specAct d n → rulesOK o n = false → validate codeTable o d = false
   edges_cover         :  ∀ e ∈ specEdges, the table has an unconditional, error-propagating edge for e
 
-The last two do not hold of the code as it is: five exclusion classes (each with a kernel-checked witness
+The last two do not hold of the code as it is: four exclusion classes (each with a kernel-checked witness
 below, each replayed against the real code from corpus/C04/):
   * excl7Node          (DESIGN §7 #7)   template variable names compared only when the counts differ;
   * exclBelow [(schema, xml), (schema, discriminator)]  (§7 #28, what is left of it) `xml` and `discriminator`
                         objects are never validated;
   * exclInnerNode      sibling keys of a `$ref` inside a schema are never looked at;
-  * exclBelow [(pathItem, servers), (operation, servers)]  the `servers` of a path item / an operation are never validated;
-  * exclEncNode / exclBelow [(encoding, headers)]  `Encoding.Validate` answers nil as soon as one of its headers
-                        fails: the header's violation is dropped and the encoding object's own violations
-                        are masked.
-Repaired since the last round (classes deleted, witnesses turned into regression theorems):
-  header extra fields / encoding objects never validated (78418b3), external-only examples validated as null
-  (9d56ffd), header examples never checked (3a27745).
+  * exclBelow [(encoding, headers)]  what is left of F-C04-6 after 7cd29a9: a header of an encoding object is
+                        validated, but its error is dropped (`continue`).
+Repaired (classes deleted, witnesses turned into regression theorems): header extra fields / encoding objects
+never validated (78418b3), external-only examples validated as null (9d56ffd), header examples never checked
+(3a27745), servers of path items / operations never validated (1f4197d), a failing encoding header ending
+`Encoding.Validate` with success and masking the object's own violations (7cd29a9).
+Round 4: option LISTS (left fold over the settings record, constructors from table OptionCtors) and history
+independence (table PatternCache: document validation neither reads nor writes the process-wide pattern cache).
 -/
 import KinModel.Lemmas.C04Reach
 import KinModel.Lemmas.C04Witness
+import KinModel.Lemmas.C04Options
 import KinModel.Gen.ParamStyles
 namespace KinModel.DocValidate
 
@@ -49,18 +51,18 @@ theorem code_facts :
       anyNode (exclInnerNode {}) W.dInner = true) ∧
     -- 7
     (validate codeTable {} W.dEncHeader = true ∧ specVerdict {} W.dEncHeader = .reject ∧
-      anyNode (exclEncNode codeTable {}) W.dEncHeader = true ∧ anyNode (exclBelow knownUncovered {}) W.dEncHeader = true ∧
-      validate codeTable {} W.dEncMasked = true ∧ specVerdict {} W.dEncMasked = .reject ∧
-      anyNode (exclEncNode codeTable {}) W.dEncMasked = true) ∧
-    -- 7b
-    (validate codeTable {} W.dOpServer = true ∧ specVerdict {} W.dOpServer = .reject ∧
-      anyNode (exclBelow knownUncovered {}) W.dOpServer = true ∧
-      validate codeTable {} W.dPathItemServer = true ∧ specVerdict {} W.dPathItemServer = .reject ∧
-      anyNode (exclBelow knownUncovered {}) W.dPathItemServer = true) := by
+      anyNode (exclBelow knownUncovered {}) W.dEncHeader = true ∧ anyNode (exclLocal {}) W.dEncHeader = false) := by
   decide +kernel
 
 /-- the closed facts about the former witnesses (repaired defects) and the non-vacuity documents -/
 theorem code_facts_regress :
+    -- 7c
+    (validate codeTable {} W.dEncMasked = false ∧ specVerdict {} W.dEncMasked = .reject ∧
+      validate codeTable {} W.dEncBadKey = false ∧ specVerdict {} W.dEncBadKey = .reject ∧
+      validate codeTable {} W.dOpServer = false ∧ specVerdict {} W.dOpServer = .reject ∧
+      anyNode (exclNode knownUncovered {}) W.dOpServer = false ∧
+      validate codeTable {} W.dPathItemServer = false ∧ specVerdict {} W.dPathItemServer = .reject ∧
+      anyNode (exclNode knownUncovered {}) W.dPathItemServer = false) ∧
     -- 8
     (validate codeTable {} W.dExternal = true ∧ specVerdict {} W.dExternal = .accept ∧
       validate codeTable { exDisabled := true } W.dExternal = true ∧
@@ -68,28 +70,28 @@ theorem code_facts_regress :
       validate codeTable { exDisabled := true } W.dExternalBad = true) ∧
     -- 9
     (validate codeTable {} W.d28a = false ∧ specVerdict {} W.d28a = .reject ∧
-      anyNode (exclNode codeTable knownUncovered {}) W.d28a = false) ∧
+      anyNode (exclNode knownUncovered {}) W.d28a = false) ∧
     -- 10
     (validate codeTable {} W.dHeaderExample = false ∧ specVerdict {} W.dHeaderExample = .reject ∧
-      anyNode (exclNode codeTable knownUncovered {}) W.dHeaderExample = false ∧
+      anyNode (exclNode knownUncovered {}) W.dHeaderExample = false ∧
       validate codeTable { exDisabled := true } W.dHeaderExample = true ∧
       specVerdict { exDisabled := true } W.dHeaderExample = .accept ∧
       validate codeTable {} W.dHeaderExampleOK = true ∧ specVerdict {} W.dHeaderExampleOK = .accept) ∧
     -- 11
     (validate codeTable {} W.dEncStyle = false ∧ specVerdict {} W.dEncStyle = .reject ∧
-      anyNode (exclNode codeTable knownUncovered {}) W.dEncStyle = false ∧
+      anyNode (exclNode knownUncovered {}) W.dEncStyle = false ∧
       validate codeTable {} W.dEncExtra = false ∧ specVerdict {} W.dEncExtra = .reject ∧
-      anyNode (exclNode codeTable knownUncovered {}) W.dEncExtra = false ∧
+      anyNode (exclNode knownUncovered {}) W.dEncExtra = false ∧
       validate codeTable {} W.dEncOK = true ∧ specVerdict {} W.dEncOK = .accept) ∧
     -- 12
     (validate codeTable {} W.dHeaderBoth = false ∧ specVerdict {} W.dHeaderBoth = .reject ∧
       validate codeTable { exDisabled := true } W.dHeaderBoth = false ∧
       specVerdict { exDisabled := true } W.dHeaderBoth = .reject) ∧
     -- 13
-    (conformingB {} W.good = true ∧ anyNode (exclNode codeTable knownUncovered {}) W.good = false ∧
+    (conformingB {} W.good = true ∧ anyNode (exclNode knownUncovered {}) W.good = false ∧
       validate codeTable {} W.good = true) ∧
     -- 14
-    (specVerdict {} W.dDeepDefault = .reject ∧ anyNode (exclNode codeTable knownUncovered {}) W.dDeepDefault = false ∧
+    (specVerdict {} W.dDeepDefault = .reject ∧ anyNode (exclNode knownUncovered {}) W.dDeepDefault = false ∧
       validate codeTable {} W.dDeepDefault = false ∧
       validate codeTable { defDisabled := true } W.dDeepDefault = true ∧
       validate codeTable { exDisabled := true } W.dDeepDefault = false ∧
@@ -99,7 +101,7 @@ theorem code_facts_regress :
       validate codeTable {} W.d28aOK = true ∧ specVerdict {} W.d28aOK = .accept) ∧
     -- 16
     (validate codeTable {} W.dSecondOp = false ∧ specVerdict {} W.dSecondOp = .reject ∧
-      anyNode (exclNode codeTable knownUncovered {}) W.dSecondOp = false) := by
+      anyNode (exclNode knownUncovered {}) W.dSecondOp = false) := by
   decide +kernel
 
 /-- every `Validate` method, every child call, every option guard and the fate of every returned error was
@@ -109,12 +111,11 @@ theorem table_recognised :
 
 /-- the calls to `validateExtensions`, `ValidateIdentifier`, `VisitJSON(default)`, `validateExampleValue` and
 the visits of example objects are where the theorems need them, under exactly the option guards they name;
-the only errors a method drops are those of the headers of an encoding object -/
+no error ends a method with success; the only error dropped is that of a header of an encoding object -/
 theorem table_ok : TableOK codeTable = true := code_facts.2.1
 
 /-- `edges_cover` (partial): of the containment edges named by the property, the code lacks exactly
-`pathItem → servers`, `operation → servers`, `schema → xml`, `schema → discriminator` (never called) and
-`encoding → headers` (called, error dropped);
+`schema → xml`, `schema → discriminator` (never called) and `encoding → headers` (called, error dropped);
 every other one is followed unconditionally and its error returned -/
 theorem edges_cover_partial : uncovered codeTable = knownUncovered := code_facts.2.2.1
 
@@ -181,7 +182,7 @@ no rule that is in force under the options is violated. `examplesWFor`: the exam
 visits under the node are well-formed — not an exclusion, it holds at every node of an accepted document
 (`examplesWFor_of_valid`) and of a conforming one (`examplesWFor_of_rules`). -/
 theorem local_checks_eq_rules_partial (T : Table) (o : Opts) (d : Doc) (hT : TableOK T = true)
-    (hex : exclLocal T o d = false) (hwf : examplesWFor o d = true) : localOKV T o d = rulesOK o d :=
+    (hex : exclLocal o d = false) (hwf : examplesWFor o d = true) : localOKV T o d = rulesOK o d :=
   localOKV_eq_rules T o d hT hex hwf
 
 /-- the code's local checks are never stricter than the rules: a node whose example objects are
@@ -208,11 +209,10 @@ theorem conforming_accepted (T : Table) (o : Opts) (d : Doc) (hT : TableOK T = t
 
 /-- **C04 (b), partial.** If some node reachable through the property's containment relation violates a
 rule that is in force, the document is rejected — provided no node reachable that way is in an exclusion
-class (`exclNode`: #7, servers of path items / operations, xml / discriminator objects, inner `$ref` siblings,
-encoding objects with a failing header). Holds for every document, every location and every option set. -/
+class (`exclNode`: #7, xml / discriminator objects, inner `$ref` siblings, headers of encoding objects). Holds for every document, every location and every option set. -/
 theorem violation_rejected_partial (T : Table) (o : Opts) (d n : Doc) (hT : TableOK T = true)
     (hr : Reach specAct d n) (hbad : rulesOK o n = false)
-    (hex : ∀ m, Reach specAct d m → exclNode T (uncovered T) o m = false) : validate T o d = false := by
+    (hex : ∀ m, Reach specAct d m → exclNode (uncovered T) o m = false) : validate T o d = false := by
   cases hv : validate T o d with
   | false => rfl
   | true => rw [reach_rules T o hT hr hex hv] at hbad; cases hbad
@@ -227,7 +227,7 @@ theorem specVerdict_accept (o : Opts) (d : Doc) (h : specVerdict o d = .accept) 
 
 /-- the executable oracle used by the differential run, on the code's table: verdict `reject` -/
 theorem specVerdict_reject_partial (o : Opts) (d : Doc)
-    (hex : ∀ m, Reach specAct d m → exclNode codeTable knownUncovered o m = false)
+    (hex : ∀ m, Reach specAct d m → exclNode knownUncovered o m = false)
     (h : specVerdict o d = .reject) : validate codeTable o d = false := by
   have hclean : specCleanB o d = false := by
     unfold specVerdict at h
@@ -306,7 +306,7 @@ in one of the three local exclusion classes. With the `option_*_only` theorems a
 status of its own rule only) this is "each validation option switches off only the check it names" for all
 six options at once. -/
 theorem accepted_iff_no_violation_in_force (T : Table) (o : Opts) (d : Doc) (hT : TableOK T = true)
-    (hex : ∀ n, Reach (active T o) d n → exclLocal T o n = false) :
+    (hex : ∀ n, Reach (active T o) d n → exclLocal o n = false) :
     validate T o d = true ↔ ∀ n, Reach (active T o) d n → ∀ v ∈ violations n, enabled o v = false := by
   have hr : ∀ n, rulesOK o n = true ↔ ∀ v ∈ violations n, enabled o v = false := by
     intro n; unfold rulesOK; rw [List.all_eq_true]; simp
@@ -326,7 +326,7 @@ theorem accepted_iff_no_violation_in_force (T : Table) (o : Opts) (d : Doc) (hT 
 the document is accepted exactly when every violation at a node the code reaches is either not in force
 under the other options or is the example rule. -/
 theorem option_only_its_check_partial (T : Table) (o : Opts) (d : Doc) (hT : TableOK T = true)
-    (hex : ∀ n, exclLocal T { o with exDisabled := true } n = false) :
+    (hex : ∀ n, exclLocal { o with exDisabled := true } n = false) :
     validate T { o with exDisabled := true } d = true ↔
       ∀ n, Reach (active T { o with exDisabled := true }) d n →
         ∀ v ∈ violations n, v.rule = "exampleMismatch" ∨ enabled o v = false := by
@@ -341,6 +341,86 @@ theorem option_only_its_check_partial (T : Table) (o : Opts) (d : Doc) (hT : Tab
     rw [localOKV_eq_rules T _ n hT (hex n) (hwf n), rulesOK_examples_off, List.all_eq_true]
     intro v hv
     simpa using h n hr v hv
+
+/-! ### Option lists -/
+
+/-- every constructor of validation_options.go was read; `WithValidationOptions` is a left fold from the zero
+settings record; each constructor writes the field, and the value, that its name says (`specOptionRows`) -/
+theorem option_ctors_as_named :
+    Gen.optionCtorsUnrecognised = [] ∧ Gen.optionFold = "foldl-from-zero" ∧ Gen.optionCtors = specOptionRows ∧
+    Gen.optionCtors.all (fun r => fieldKnown r.field r.value) = true := by
+  decide +kernel
+
+/-- for every option list (any length, any repetition) the settings the code computes are the settings the
+property assigns to the list -/
+theorem options_model_is_spec (l : List OptCall) : optsOf Gen.optionCtors l = specOptsOf l := by
+  unfold specOptsOf; rw [option_ctors_as_named.2.2.1]
+
+/-- in an option list the last constructor that writes a check decides it; a check no constructor of the list
+writes keeps its default (`false`). Stated for the five flags, for any constructor table. -/
+theorem options_last_writer_wins (rows : List Gen.OptionCtorRow) (l : List OptCall) :
+    (optsOf rows l).exDisabled = (l.reverse.findSome? (callWrites rows "examplesValidationDisabled")).getD false ∧
+    (optsOf rows l).defDisabled = (l.reverse.findSome? (callWrites rows "schemaDefaultsValidationDisabled")).getD false ∧
+    (optsOf rows l).fmtEnabled = (l.reverse.findSome? (callWrites rows "schemaFormatValidationEnabled")).getD false ∧
+    (optsOf rows l).patDisabled = (l.reverse.findSome? (callWrites rows "schemaPatternValidationDisabled")).getD false ∧
+    (optsOf rows l).extProhibited = (l.reverse.findSome? (callWrites rows "schemaExtensionsInRefProhibited")).getD false := by
+  unfold optsOf
+  refine ⟨?_, ?_, ?_, ?_, ?_⟩
+  · exact foldl_last (stepWith rows) (fun o => o.exDisabled) _
+      (stepWith_flag rows (fun o => o.exDisabled) "examplesValidationDisabled" setField_ex) l {}
+  · exact foldl_last (stepWith rows) (fun o => o.defDisabled) _
+      (stepWith_flag rows (fun o => o.defDisabled) "schemaDefaultsValidationDisabled" setField_def) l {}
+  · exact foldl_last (stepWith rows) (fun o => o.fmtEnabled) _
+      (stepWith_flag rows (fun o => o.fmtEnabled) "schemaFormatValidationEnabled" setField_fmt) l {}
+  · exact foldl_last (stepWith rows) (fun o => o.patDisabled) _
+      (stepWith_flag rows (fun o => o.patDisabled) "schemaPatternValidationDisabled" setField_pat) l {}
+  · exact foldl_last (stepWith rows) (fun o => o.extProhibited) _
+      (stepWith_flag rows (fun o => o.extProhibited) "schemaExtensionsInRefProhibited" setField_ext) l {}
+
+/-- the instances a copy-paste slip would break: an `Enable` after a `Disable` of the same check switches it
+back on, and leaves every other check alone -/
+theorem options_enable_after_disable :
+    specOptsOf [("DisableSchemaDefaultsValidation", []), ("EnableSchemaDefaultsValidation", [])] = {} ∧
+    specOptsOf [("DisableSchemaPatternValidation", []), ("EnableSchemaDefaultsValidation", [])] = { patDisabled := true } ∧
+    optsOf Gen.optionCtors [("DisableSchemaDefaultsValidation", []), ("EnableSchemaDefaultsValidation", [])] = {} ∧
+    optsOf Gen.optionCtors [("DisableSchemaPatternValidation", []), ("EnableSchemaDefaultsValidation", [])] = { patDisabled := true } := by
+  decide +kernel
+
+/-- `SetRegexCompiler` changes the status of the pattern rule only -/
+theorem option_regex_only (o : Opts) (b : Bool) (v : Viol) (h : v.rule ≠ "badPattern") :
+    enabled { o with customRegex := b } v = enabled o v := by
+  unfold enabled; split <;> simp_all
+
+/-! ### History independence -/
+
+/-- every use of the process-wide cache of compiled patterns was read; document validation (everything but
+`Schema.visitJSONString`, the value validation of C01) never consults it, and nothing creates an entry -/
+theorem pattern_cache_unused :
+    Gen.patternCacheUnrecognised = [] ∧ codeTable.cacheRead = false ∧ codeTable.cacheWrite = false := by
+  decide +kernel
+
+/-- **C04, history independence.** The verdict of a `Validate` call is a function of its own document and
+options: whatever the cache of compiled patterns holds when the call starts — that is, whatever calls (with
+whatever regular-expression engine) were made before in the process — the verdict is that of a fresh process. -/
+theorem history_independent (cache : List String) (o : Opts) (d : Doc) :
+    validateIn codeTable cache o d = validate codeTable o d :=
+  validateIn_eq codeTable pattern_cache_unused.2.1 cache o d
+
+/-- a sequence of calls in one process: each verdict is the verdict the call has on its own -/
+theorem sequence_history_independent (calls : List (Opts × Doc)) (cache : List String) :
+    runSeq codeTable calls cache = calls.map (fun c => validate codeTable c.1 c.2) :=
+  runSeq_eq codeTable pattern_cache_unused.2.1 calls cache
+
+/-- the hypothesis is needed: for a table in which document validation reads the cache (the shape of the code
+after a "cache the compiled pattern and skip recompilation" change), a pattern the default engine cannot
+compile is accepted once it is in the cache -/
+theorem history_matters_if_cache_is_read :
+    validate { codeTable with cacheRead := true } {} W.dLookahead = false ∧
+    validateIn { codeTable with cacheRead := true } ["(?!a)"] {} W.dLookahead = true ∧
+    validate codeTable { customRegex := true } W.dLookahead = true ∧ specVerdict { customRegex := true } W.dLookahead = .accept ∧
+    validate codeTable {} W.dLookahead = false ∧ specVerdict {} W.dLookahead = .reject ∧
+    validate codeTable { patDisabled := true } W.dLookahead = true := by
+  decide +kernel
 
 /-! ### Witnesses: inside each exclusion class the code deviates (kernel-checked, replayed from corpus/C04) -/
 
@@ -359,25 +439,26 @@ theorem witness_inner_ref_sibling :
     validate codeTable {} W.dInner = true ∧ specVerdict {} W.dInner = .reject ∧
       anyNode (exclInnerNode {}) W.dInner = true := code_facts.2.2.2.2.2.1
 
-/-- a header of an encoding object that carries `name` is accepted (`Encoding.Validate` drops the error),
-the property rejects it; the failing header also masks an unsupported style and an extra field of the
-encoding object itself -/
+/-- what is left of F-C04-6: a header of an encoding object that carries `name` is accepted (`Encoding.Validate`
+drops the header's error by `continue`), the property rejects it; no local exclusion class is involved -/
 theorem witness_encoding_header_error_dropped :
     validate codeTable {} W.dEncHeader = true ∧ specVerdict {} W.dEncHeader = .reject ∧
-      anyNode (exclEncNode codeTable {}) W.dEncHeader = true ∧ anyNode (exclBelow knownUncovered {}) W.dEncHeader = true ∧
-      validate codeTable {} W.dEncMasked = true ∧ specVerdict {} W.dEncMasked = .reject ∧
-      anyNode (exclEncNode codeTable {}) W.dEncMasked = true := code_facts.2.2.2.2.2.2.1
-
-/-- a server object without `url` under an operation, and one with an undeclared variable under a path item,
-are accepted (`Operation.Validate` / `PathItem.Validate` never look at `servers`); the property rejects them -/
-theorem witness_nested_servers_unchecked :
-    validate codeTable {} W.dOpServer = true ∧ specVerdict {} W.dOpServer = .reject ∧
-      anyNode (exclBelow knownUncovered {}) W.dOpServer = true ∧
-      validate codeTable {} W.dPathItemServer = true ∧ specVerdict {} W.dPathItemServer = .reject ∧
-      anyNode (exclBelow knownUncovered {}) W.dPathItemServer = true := code_facts.2.2.2.2.2.2.2
+      anyNode (exclBelow knownUncovered {}) W.dEncHeader = true ∧ anyNode (exclLocal {}) W.dEncHeader = false :=
+  code_facts.2.2.2.2.2.2
 
 /-! ### Regression theorems: former witnesses of repaired defects (model = specification on them; the inputs
 stay in corpus/C04, so a regression of the code is reported with that input) -/
+
+/-- 7cd29a9: a failing header no longer hides an unsupported style / an extra field of the encoding object, and
+a header key that is not an identifier is rejected; 1f4197d: an ill-formed server under an operation or a path
+item is rejected, outside every exclusion class -/
+theorem regression_encoding_not_masked_and_nested_servers :
+    validate codeTable {} W.dEncMasked = false ∧ specVerdict {} W.dEncMasked = .reject ∧
+      validate codeTable {} W.dEncBadKey = false ∧ specVerdict {} W.dEncBadKey = .reject ∧
+      validate codeTable {} W.dOpServer = false ∧ specVerdict {} W.dOpServer = .reject ∧
+      anyNode (exclNode knownUncovered {}) W.dOpServer = false ∧
+      validate codeTable {} W.dPathItemServer = false ∧ specVerdict {} W.dPathItemServer = .reject ∧
+      anyNode (exclNode knownUncovered {}) W.dPathItemServer = false := code_facts_regress.1
 
 /-- 9d56ffd: an example that gives only `externalValue` under a string schema is accepted; an example next to
 it whose value violates the schema is still rejected (and accepted once examples validation is switched off) -/
@@ -385,65 +466,65 @@ theorem regression_external_example :
     validate codeTable {} W.dExternal = true ∧ specVerdict {} W.dExternal = .accept ∧
       validate codeTable { exDisabled := true } W.dExternal = true ∧
       validate codeTable {} W.dExternalBad = false ∧ specVerdict {} W.dExternalBad = .reject ∧
-      validate codeTable { exDisabled := true } W.dExternalBad = true := code_facts_regress.1
+      validate codeTable { exDisabled := true } W.dExternalBad = true := code_facts_regress.2.1
 
 /-- 78418b3: a header object with `"bogus": 1` is rejected -/
 theorem regression_header_extra :
     validate codeTable {} W.d28a = false ∧ specVerdict {} W.d28a = .reject ∧
-      anyNode (exclNode codeTable knownUncovered {}) W.d28a = false := code_facts_regress.2.1
+      anyNode (exclNode knownUncovered {}) W.d28a = false := code_facts_regress.2.2.1
 
 /-- 3a27745: a header whose example violates its schema is rejected, accepted once examples validation is
 switched off; the matching example is accepted -/
 theorem regression_header_example :
     validate codeTable {} W.dHeaderExample = false ∧ specVerdict {} W.dHeaderExample = .reject ∧
-      anyNode (exclNode codeTable knownUncovered {}) W.dHeaderExample = false ∧
+      anyNode (exclNode knownUncovered {}) W.dHeaderExample = false ∧
       validate codeTable { exDisabled := true } W.dHeaderExample = true ∧
       specVerdict { exDisabled := true } W.dHeaderExample = .accept ∧
       validate codeTable {} W.dHeaderExampleOK = true ∧ specVerdict {} W.dHeaderExampleOK = .accept :=
-  code_facts_regress.2.2.1
+  code_facts_regress.2.2.2.1
 
 /-- 78418b3: an encoding object with an unsupported style, or with an extra field, is rejected; a supported
 style with an extension field is accepted -/
 theorem regression_encoding_validated :
     validate codeTable {} W.dEncStyle = false ∧ specVerdict {} W.dEncStyle = .reject ∧
-      anyNode (exclNode codeTable knownUncovered {}) W.dEncStyle = false ∧
+      anyNode (exclNode knownUncovered {}) W.dEncStyle = false ∧
       validate codeTable {} W.dEncExtra = false ∧ specVerdict {} W.dEncExtra = .reject ∧
-      anyNode (exclNode codeTable knownUncovered {}) W.dEncExtra = false ∧
+      anyNode (exclNode knownUncovered {}) W.dEncExtra = false ∧
       validate codeTable {} W.dEncOK = true ∧ specVerdict {} W.dEncOK = .accept :=
-  code_facts_regress.2.2.2.1
+  code_facts_regress.2.2.2.2.1
 
 /-- 3a27745: `example` next to `examples` in a header object is rejected, whatever the examples option -/
 theorem regression_header_example_and_examples :
     validate codeTable {} W.dHeaderBoth = false ∧ specVerdict {} W.dHeaderBoth = .reject ∧
       validate codeTable { exDisabled := true } W.dHeaderBoth = false ∧
       specVerdict { exDisabled := true } W.dHeaderBoth = .reject :=
-  code_facts_regress.2.2.2.2.1
+  code_facts_regress.2.2.2.2.2.1
 
 /-! ### Non-vacuity -/
 
 /-- a conforming document outside every exclusion class: accepted, by model and specification -/
-example : conformingB {} W.good = true ∧ anyNode (exclNode codeTable knownUncovered {}) W.good = false ∧
-    validate codeTable {} W.good = true := code_facts_regress.2.2.2.2.2.1
+example : conformingB {} W.good = true ∧ anyNode (exclNode knownUncovered {}) W.good = false ∧
+    validate codeTable {} W.good = true := code_facts_regress.2.2.2.2.2.2.1
 
 /-- a violation outside the exclusion classes, three containers deep (a default that violates its schema,
 under `items` of a schema without `type`): rejected under the default options, accepted once the option
 that names its rule is set, still rejected under the other options -/
-example : specVerdict {} W.dDeepDefault = .reject ∧ anyNode (exclNode codeTable knownUncovered {}) W.dDeepDefault = false ∧
+example : specVerdict {} W.dDeepDefault = .reject ∧ anyNode (exclNode knownUncovered {}) W.dDeepDefault = false ∧
     validate codeTable {} W.dDeepDefault = false ∧
     validate codeTable { defDisabled := true } W.dDeepDefault = true ∧
     validate codeTable { exDisabled := true } W.dDeepDefault = false ∧
     validate codeTable { patDisabled := true, fmtEnabled := true, extProhibited := true } W.dDeepDefault = false :=
-  code_facts_regress.2.2.2.2.2.2.1
+  code_facts_regress.2.2.2.2.2.2.2.1
 
 /-- the template rule does fire when the counts differ, and the benign twin of the header extra field passes -/
 example : validate codeTable {} W.dMissing = false ∧ specVerdict {} W.dMissing = .reject ∧
     validate codeTable {} W.d28aOK = true ∧ specVerdict {} W.d28aOK = .accept :=
-  code_facts_regress.2.2.2.2.2.2.2.1
+  code_facts_regress.2.2.2.2.2.2.2.2.1
 
 /-- the template rule is applied to every operation of a path item separately: `get` declares the
 variable, `put` does not — rejected, outside every exclusion class -/
 example : validate codeTable {} W.dSecondOp = false ∧ specVerdict {} W.dSecondOp = .reject ∧
-    anyNode (exclNode codeTable knownUncovered {}) W.dSecondOp = false :=
-  code_facts_regress.2.2.2.2.2.2.2.2
+    anyNode (exclNode knownUncovered {}) W.dSecondOp = false :=
+  code_facts_regress.2.2.2.2.2.2.2.2.2
 
 end KinModel.DocValidate
